@@ -154,7 +154,80 @@ def path_sgr(ctx, job, box):
     cell = cell_alts(L, run.post, 0, 0)
     checks.append(run.check(alts_is(cell, exp.with_field(L.char['data'], Str.of('Z'))),
                             'a character drawn after SGR does not carry exactly the selected rendition'))
+    # ... and so do both cells of a double-width character
+    run.call('cursor_position', some(Int('u32', 1)), some(Int('u32', 1)))
+    run.call('draw', Str.of('コ'))
+    if run.outcome == 'panic':
+        return run.panic_check('draw after SGR panics: %s' % run.msg)
+    checks.append(run.check(bool_and(alts_is(cell_alts(L, run.post, 0, 0), exp.with_field(L.char['data'], Str.of('コ'))),
+                                     alts_is(cell_alts(L, run.post, 0, 1), exp.with_field(L.char['data'], Str(())))),
+                            'a double-width character drawn after SGR: lead or placeholder does not carry the selected rendition'))
     return checks
+
+
+def path_parser(ctx, job, box):
+    """Through the recogniser: an aborted / skipped CSI with parameters, then `CSI n m`: the rendition is the
+    fold of the SGR sequence's own parameters only."""
+    from ..engine import Engine
+    from ..state import Session, snapshot, Ev
+    from ..symstate import SymScreen
+    prog, L = G['prog'], G['L']
+    eng = Engine(prog, ctx)
+    box['eng'] = eng
+    ss = SymScreen(ctx, eng, L, 2, 1, cursor=(0, 0), tabstops=0, titles='none', saved_columns='none', margins='none',
+                   extra_mode=False, modes={'DECSCNM': 'sym', 'DECAWM': True, 'DECTCEM': True}, cell_attrs='none',
+                   buffer='none')
+    ses = Session(eng, L, screen=ss.value)
+    pre = ss.value
+    prefix = job.params['prefix']
+    p0 = sym_u32(ctx, 's0')
+    digits = None
+    # the parameter is sent as its decimal digits: concretised per path (0..=9999 would be 10^4 paths, so the
+    # SGR code is chosen among the documented classes plus a free two-digit value)
+    d1 = ctx.bvvar('d1', 32)
+    d2 = ctx.bvvar('d2', 32)
+    ctx.assume(z3.And(z3.UGE(d1, 48), z3.ULE(d1, 57), z3.UGE(d2, 48), z3.ULE(d2, 57)))
+    val = (d1 - 48) * 10 + (d2 - 48)
+    chars = [ord(c) for c in prefix] + [0x9b, d1, d2, ord('m')]
+    outcome, msg = 'ok', None
+    mid = pre
+    try:
+        if prefix:
+            ses.feed(Str.of(prefix))
+            mid = ses.screen          # whatever the earlier sequence legitimately did
+        ses.feed(Str((0x9b, d1, d2, ord('m'))))
+    except Panic as e:
+        outcome, msg = 'panic', str(e)
+    post = ses.screen
+
+    def jsteps(model):
+        ev = Ev(model)
+        out = []
+        if prefix:
+            out.append(['feed_cps', [ord(c) for c in prefix]])
+        out.append(['feed_cps', [0x9b, ev.int(d1), ev.int(d2), ord('m')]])
+        return out
+
+    def scenario(model):
+        st = snapshot(eng, L, pre, model)
+        sc = {'cols': 2, 'lines': 1, 'state': st, 'steps': jsteps(model)}
+        if outcome == 'panic':
+            return sc, {'ok': False, 'panic': msg, 'out': []}
+        return sc, {'ok': True, 'out': [snapshot(eng, L, post, model)]}
+
+    def describe(model):
+        return {'input': ''.join(chr(c) for st in jsteps(model) for c in st[1]).encode('unicode_escape').decode()}
+
+    if outcome == 'panic':
+        return Check(False, scenario, describe, outcome='panic', label='panic: %s' % msg)
+    exp = fold(ctx, L, mid, [Int('u32', val)])
+    _, _, pattr, _ = cursor_of(L, post)
+    ok = True
+    for name, i in L.char.items():
+        ok = bool_and(ok, same(pattr.f[i], exp.f[i]))
+    return Check(ok, scenario, describe,
+                 label='CSI n m after an aborted/skipped CSI: the rendition is not the fold of the sequence\'s own parameter '
+                       '(stale parameters from the earlier sequence?)')
 
 
 def jobs(tier):
@@ -174,6 +247,9 @@ def jobs(tier):
     for sh in [(None,), (38, 5, None), (48, 2, None, None, None)]:
         name = ';'.join('n' if x is None else str(x) for x in sh)
         js.append(Job('csi/' + name, path_sgr, shape=sh, geom=g, via='csi', prop=PROP))
+    for nm, pre in (('plain', ''), ('can', '\x9b1;4;7\x18'), ('dollar', '\x9b1;4;7$x'), ('sub', '\x9b48;5;\x1a'),
+                    ('sgr', '\x9b1;4m'), ('osc', '\x9d2;x\x07')):
+        js.append(Job('parser/after-' + nm, path_parser, prefix=pre, prop=PROP))
     return js
 
 
